@@ -17,7 +17,8 @@ class Fn:
         self.blocks = {}              # 'bb0' -> Block
         self.header_line = header_line
         self.lines = 0
-        self.debug = {}               # source variable name -> local (from `debug x => _N;`)
+        self.debug = {}               # source variable name -> local (from `debug x => _N;`), first occurrence
+        self.debug_all = []           # every (name, local) in declaration order
 
     def __repr__(self):
         return f"<Fn {self.name}>"
@@ -117,6 +118,7 @@ def parse_mir(text):
         dm = re.match(r"^debug (\w+) => (_\d+);$", s)
         if dm and block is None:
             cur.debug.setdefault(dm.group(1), dm.group(2))
+            cur.debug_all.append((dm.group(1), dm.group(2)))
             continue
         m = re.match(r"^let (?:mut )?(_\d+): (.+);$", s)
         if m and block is None:
